@@ -448,7 +448,9 @@ def check(root, prop, cfg, tier, seed):
                     p = os.path.join(root, "coq", t[:-3] + ext)
                     if os.path.exists(p):
                         os.remove(p)
-        make_ok = step_make(root, targets + ["Extract/Deps.vo"], st)
+        # the cone (the Tie and Proofs files the property's claim rests on) is built explicitly:
+        # a Tie file that Props does not import still holds obligations of this property
+        make_ok = step_make(root, targets + cfg.get("cone", []) + ["Extract/Deps.vo"], st)
         hygiene_ok = step_hygiene(root, st)
         assum_ok = step_assumptions(root, prop, cfg, st) if make_ok else False
         if tier == "thorough" and make_ok and cfg.get("coqchk", True):
